@@ -2,6 +2,7 @@ package rules
 
 import (
 	"fmt"
+	"go/constant"
 	"go/token"
 	"go/types"
 	"strings"
@@ -107,6 +108,7 @@ func c12(c *Ctx) {
 	c.checkNoMemoAfterFailure(L)
 	c.checkReadCountOnFailure()
 	c.checkNoEarlyOpen()
+	c.checkNoInvertedErrorTest()
 	var nodeIface *types.Interface
 	if pk := c.P.All["github.com/ipld/go-ipld-prime/datamodel"]; pk != nil {
 		if o := pk.Types.Scope().Lookup("Node"); o != nil {
@@ -308,6 +310,15 @@ func (c *Ctx) checkIterProgress() {
 							}
 						} else if f := x.Call.StaticCallee(); f != nil && core.RecvNamed(f) == recvN && isSubject[f] && len(x.Call.Args) > 0 && x.Call.Args[0] == ssa.Value(recv) {
 							advanced = true // delegates to the sibling method, which is checked on its own
+						} else if f != nil && len(f.Blocks) > 0 {
+							// a helper handed the wrapped cursor that advances it on every path
+							if _, isRepo := c.P.PkgOf(f); isRepo {
+								for ai, a := range x.Call.Args {
+									if isCursorLoad(a) != nil && ai < len(f.Params) && helperAdvancesParam(f, ai) {
+										advanced = true
+									}
+								}
+							}
 						}
 					case *ssa.Return:
 						if !advanced {
@@ -573,4 +584,177 @@ func (c *Ctx) checkNoEarlyOpen() {
 		r.Check(o.Status == core.Discharged, "R12.6", strings.Replace(o.Key, "/declared-size-paths", "/no-early-open", 1), o.Pos, "children with a recorded size are not opened while sizes are computed", "a child can be opened (and its load error returned) before the read reaches it: "+o.Detail)
 	}
 	r.Floor("R12.6", n, 1)
+}
+
+// helperAdvancesParam: every path of h from entry to a return passes a call of Next on h's i-th parameter.
+func helperAdvancesParam(h *ssa.Function, i int) bool {
+	if h == nil || len(h.Blocks) == 0 || i >= len(h.Params) {
+		return false
+	}
+	p := ssa.Value(h.Params[i])
+	ok, nret := true, 0
+	complete := core.EnumPaths(h, 1, 20000, func(path []*ssa.BasicBlock) {
+		adv := false
+		for _, b := range path {
+			for _, ins := range b.Instrs {
+				switch x := ins.(type) {
+				case *ssa.Call:
+					if name, rv := methodCall(x); name == "Next" && rv == p {
+						adv = true
+					}
+				case *ssa.Return:
+					nret++
+					if !adv {
+						ok = false
+					}
+				}
+			}
+		}
+	})
+	return complete && ok && nret > 0
+}
+
+// checkNoInvertedErrorTest implements R12.7: an error that was just tested nil is not what a function reports. In every
+// hand-written repository function: a return whose error slot is the very error value that a dominating branch found
+// nil, while every other result is a zero constant (the function answers "nothing, and no error"); or a store of such a
+// known-nil error into a captured error variable (`retErr = err` inside `if err == nil`). Both are what an inverted
+// `err != nil` test leaves behind; the non-nil error then falls through and the call's other results are used.
+func (c *Ctx) checkNoInvertedErrorTest() {
+	r := c.R
+	r.Rule("R12.7", "no inverted error test: no return forwards an error on the edge where a dominating test found it nil while all its other results are zero values, and no known-nil error is stored into a captured error variable; instances counted are the returns and stores that forward a tested error at all")
+	n, nbad := 0, 0
+	knownNil := func(b *ssa.BasicBlock, e ssa.Value) bool {
+		return core.GuardedBy(b, func(cond ssa.Value) (bool, bool) {
+			x, trueMeansNil, ok := core.NilCmp(cond)
+			if !ok || x != e {
+				return false, false
+			}
+			return trueMeansNil, true
+		})
+	}
+	tested := func(fn *ssa.Function, e ssa.Value) bool {
+		for _, b := range fn.Blocks {
+			if iff := core.BlockIf(b); iff != nil {
+				if x, _, ok := core.NilCmp(iff.Cond); ok && x == e {
+					return true
+				}
+			}
+		}
+		return false
+	}
+	isZero := func(v ssa.Value) bool {
+		k, ok := v.(*ssa.Const)
+		if !ok {
+			return false
+		}
+		if k.Value == nil {
+			return true
+		}
+		switch k.Value.Kind() {
+		case constant.Int:
+			z, _ := constant.Int64Val(k.Value)
+			return z == 0
+		case constant.Bool:
+			return !constant.BoolVal(k.Value)
+		case constant.String:
+			return constant.StringVal(k.Value) == ""
+		}
+		return false
+	}
+	for _, fn := range c.P.RepoFuncs {
+		rel, ok := c.P.PkgOf(fn)
+		if !ok || rel == core.Rel(core.ControlPkg) || !c.P.HandWritten(fn) || fn.Synthetic != "" || len(fn.Blocks) == 0 {
+			continue
+		}
+		if !(core.ReaderPkgs[rel] || core.BuilderPkgs[rel] || rel == "data") {
+			continue
+		}
+		errIdx := core.ErrResultIndex(fn.Signature)
+		ord := 0
+		for _, b := range fn.Blocks {
+			for _, ins := range b.Instrs {
+				switch x := ins.(type) {
+				case *ssa.Return:
+					if errIdx < 0 {
+						continue
+					}
+					e := x.Results[errIdx]
+					if core.IsNilConst(e) && len(x.Results) > 1 {
+						// (nothing, nil) on the edge where an error was found non-nil: the failure is reported as success
+						allZero := true
+						for i, rv := range x.Results {
+							if i != errIdx && !isZero(rv) {
+								allZero = false
+							}
+						}
+						// an error compared with a sentinel (err == io.EOF, errors.Is) on that path is an outcome the function handles
+						handled := core.GuardedBy(b, func(cond ssa.Value) (bool, bool) {
+							if bo, ok := cond.(*ssa.BinOp); ok && (bo.Op == token.EQL || bo.Op == token.NEQ) && core.IsErrorType(bo.X.Type()) && !core.IsNilConst(bo.X) && !core.IsNilConst(bo.Y) {
+								return bo.Op == token.EQL, true
+							}
+							if call, ok := cond.(*ssa.Call); ok && (core.IsCallTo(call, "errors", "Is") || core.IsCallTo(call, "errors", "As")) {
+								return true, true
+							}
+							return false, false
+						})
+						if allZero && !handled && core.GuardedBy(b, func(cond ssa.Value) (bool, bool) {
+							y, trueMeansNil, ok := core.NilCmp(cond)
+							if !ok || !core.IsErrorType(y.Type()) {
+								return false, false
+							}
+							return !trueMeansNil, true
+						}) {
+							n++
+							ord++
+							nbad++
+							r.Violate("R12.7", fmt.Sprintf("%s/failure-returned-as-nothing#%d", core.FuncName(fn), ord), c.P.Pos(x.Pos()), "on the edge where an error was found non-nil the function returns zero results and a nil error: the failure is swallowed and the caller receives (nothing, nil)")
+						}
+						continue
+					}
+					if _, isK := e.(*ssa.Const); isK || !core.IsErrorType(e.Type()) || !tested(fn, e) {
+						continue
+					}
+					n++
+					if !knownNil(b, e) {
+						continue
+					}
+					allZero := len(x.Results) > 1
+					for i, rv := range x.Results {
+						if i != errIdx && !isZero(rv) {
+							allZero = false
+						}
+					}
+					if allZero {
+						ord++
+						nbad++
+						r.Violate("R12.7", fmt.Sprintf("%s/known-nil-error-returned#%d", core.FuncName(fn), ord), c.P.Pos(x.Pos()), "the return forwards an error on the edge where it was found nil, with no result: the test on the error is inverted — a failure falls through and the call's other results are used, a success ends with (nothing, nil)")
+					}
+				case *ssa.Store:
+					if !core.IsErrorType(x.Val.Type()) {
+						continue
+					}
+					if _, isK := x.Val.(*ssa.Const); isK {
+						continue
+					}
+					// a captured / outer error variable: free variable of a closure, or a local cell
+					if _, isFV := x.Addr.(*ssa.FreeVar); !isFV {
+						continue
+					}
+					if !tested(fn, x.Val) {
+						continue
+					}
+					n++
+					if knownNil(b, x.Val) {
+						ord++
+						nbad++
+						r.Violate("R12.7", fmt.Sprintf("%s/known-nil-error-recorded#%d", core.FuncName(fn), ord), c.P.Pos(x.Pos()), "an error that the dominating test found nil is recorded as the outcome: the test on the error is inverted")
+					}
+				}
+			}
+		}
+	}
+	if nbad == 0 {
+		r.OK("R12.7", "repository/*/no-inverted-error-test", "-", fmt.Sprintf("%d returns/stores forward a tested error; none on the edge where it was found nil", n))
+	}
+	r.Floor("R12.7", n, 20)
 }
